@@ -108,6 +108,8 @@ def make_history(base, cfg, r, n_commits=None, kind=None):
     base_rows = r.choice([0, 5, 40, 120])
     if kind == "freelist_drain":
         base_rows = r.choice([40, 120])
+    if kind == "deep_append":
+        base_rows = 1500 if ps <= 512 else 4000
     if kind == "rootmove":
         base_rows = r.choice([1, 2, 3, 40])      # a single-page table: after the move none of its old pages is rewritten
 
@@ -130,7 +132,13 @@ def make_history(base, cfg, r, n_commits=None, kind=None):
                 con.execute(f"INSERT INTO t0 ({','.join(cols)}) VALUES ({','.join('?' * ncols)})", [rid] + vals[1:])
             else:
                 con.execute(f"INSERT INTO t0 (rowid,{','.join(cols)}) VALUES (?,{','.join('?' * ncols)})", [rid] + vals)
-    ins(base_rows, big=r.random() < 0.5 and kind != "rootmove")
+    if kind == "deep_append":
+        # homogeneous rows (one serial type per column), so that the later odd rows bring serial types no row had
+        for _ in range(base_rows):
+            vals = [None if alias else 7] + ["w" * 20 for _ in cols[1:]]
+            con.execute(f"INSERT INTO t0 ({','.join(cols)}) VALUES ({','.join('?' * ncols)})", vals)
+    else:
+        ins(base_rows, big=r.random() < 0.5 and kind != "rootmove")
     if kind == "overflow_inplace":
         for _ in range(3):
             vals = [None if alias else 1] + [bytes(r.randint(0, 255) for _ in range(3 * ps + 17)) for _ in cols[1:]]
@@ -145,7 +153,7 @@ def make_history(base, cfg, r, n_commits=None, kind=None):
         con.execute("PRAGMA wal_checkpoint(TRUNCATE)")
         h.snapshots.append(snapshot(con, tables))
     if n_commits is None and kind in ("checkpoint_restart", "restart_after_rollback", "passive_checkpoint", "odd_rowids",
-                                      "wide_schema", "freelist_drain"):
+                                      "wide_schema", "freelist_drain", "deep_append"):
         n_commits = r.randint(3, 6)      # these shapes need a few commits to show at all
     n_commits = n_commits if n_commits is not None else r.randint(1, 6)
     wal_size = mx_frame(work)
@@ -156,7 +164,7 @@ def make_history(base, cfg, r, n_commits=None, kind=None):
             op = r.choice(["insert", "update", "delete", "mixed"])
         con.execute("BEGIN")
         ids = [x[0] for x in con.execute("SELECT rowid FROM t0")]
-        if op == "insert" or (not ids and op not in ("freelist_drain", "odd_rowids", "wide_schema")):
+        if op == "insert" or (not ids and op not in ("freelist_drain", "odd_rowids", "wide_schema", "deep_append")):
             ins(r.randint(1, 30), big=r.random() < 0.3)
         elif op == "update":
             for rid in r.sample(ids, min(len(ids), r.randint(1, 8))) + ([0] if 0 in ids else []):
@@ -228,6 +236,21 @@ def make_history(base, cfg, r, n_commits=None, kind=None):
                     con.execute(f"INSERT OR REPLACE INTO t0 (rowid,{','.join(cols)}) VALUES (?,{','.join('?' * ncols)})", [0] + vals)
             else:
                 con.execute(f"UPDATE t0 SET {c}=? WHERE rowid <= 0", (F.rand_value(r, ps, big=False),))
+        elif op == "deep_append":
+            # a three-level tree: the first commit appends until a new leaf hangs under a second-level interior page
+            # (the root is not rewritten), the later ones write that newest leaf only - with serial types no earlier
+            # row has
+            if k == 0:
+                pc = con.execute("PRAGMA page_count").fetchone()[0]
+                for _ in range(200):
+                    vals = [None if alias else 7] + ["w" * 20 for _ in cols[1:]]
+                    con.execute(f"INSERT INTO t0 ({','.join(cols)}) VALUES ({','.join('?' * ncols)})", vals)
+                    if con.execute("PRAGMA page_count").fetchone()[0] > pc:
+                        break
+            else:
+                odd = [2.5, None, -1.25, b"", "", 2 ** 40 + k, 0, 1][(k - 1) % 8]
+                vals = [None if alias else 10 ** 6 + k] + [odd for _ in cols[1:]]
+                con.execute(f"INSERT INTO t0 ({','.join(cols)}) VALUES ({','.join('?' * ncols)})", vals)
         elif op == "freelist_drain":
             # a freelist that appears inside the log and is later used up completely (trunk pointer N -> 0)
             if k % 3 == 0:
